@@ -128,6 +128,11 @@ def general(rnd, n_scripts, nwrites=(40, 160), variants=("mpegts", "fmp4", "ll")
     for i in range(n_scripts):
         v = variants[i % len(variants)]
         cfg = make_cfg(rnd, v)
+        # the caller's wall clock is not bound to the media clock: it may step backwards or jump ahead between writes
+        if i % 5 == 3:
+            cfg["ntpMode"] = "back"
+        elif i % 5 == 4:
+            cfg["ntpMode"] = "jump"
         out.append({"cfg": cfg, "steps": gen_steps(rnd, cfg, rnd.randint(*nwrites))})
     return out
 
